@@ -4,6 +4,9 @@
 //!   time): `ConnectionId::next` must be a single `fetch_add(1, ..)` on a `static … Atomic*`.
 //!   The shape is reported as the impl line; the Lean model proves uniqueness for that shape
 //!   (and non-uniqueness for a load/store shape).
+//! * `op wrap D N`: the wrap-around semantics the model's `stepW` assumes, observed on the atomic
+//!   type the source names (`AtomicUsize`/`AtomicU64`/`AtomicU32`): a local atomic of that type
+//!   starts at `2^w - D` and N `fetch_add(1)` calls report their return values.
 //! * `op stress T K mode`: T OS threads, released together, allocate K ids each through the
 //!   public API — `DialOpts` builders (`dial`), incoming connections on one real `Swarm` per
 //!   thread (`swarm`), or both (`mixed`) — and the multiset of ids is summarised.
@@ -65,6 +68,38 @@ fn shape() -> String {
             }
         }
     }
+}
+
+/// which atomic type the static counter of `ConnectionId::next` has, per the source text
+fn counter_type() -> Option<&'static str> {
+    let path = format!("{}/swarm/src/connection.rs", crate::c12::repo_root());
+    let src = squeeze(&std::fs::read_to_string(path).unwrap_or_default());
+    ["AtomicUsize", "AtomicU64", "AtomicU32"]
+        .into_iter()
+        .find(|t| src.contains(&format!(":{t}={t}::new(")) && src.contains(".fetch_add("))
+}
+
+fn wrap(d: u64, n: usize) -> String {
+    use std::sync::atomic::{AtomicU32, AtomicU64, AtomicUsize, Ordering};
+    let Some(ty) = counter_type() else {
+        return "wrap unknown".into();
+    };
+    let (w, ids): (u32, Vec<u128>) = match ty {
+        "AtomicUsize" => {
+            let a = AtomicUsize::new(0usize.wrapping_sub(d as usize));
+            (usize::BITS, (0..n).map(|_| a.fetch_add(1, Ordering::SeqCst) as u128).collect())
+        }
+        "AtomicU64" => {
+            let a = AtomicU64::new(0u64.wrapping_sub(d));
+            (64, (0..n).map(|_| a.fetch_add(1, Ordering::SeqCst) as u128).collect())
+        }
+        _ => {
+            let a = AtomicU32::new(0u32.wrapping_sub(d as u32));
+            (32, (0..n).map(|_| a.fetch_add(1, Ordering::SeqCst) as u128).collect())
+        }
+    };
+    let l: Vec<String> = ids.iter().map(|x| x.to_string()).collect();
+    format!("w={} ids={}", w, l.join(","))
 }
 
 fn dial_ids(k: usize, salt: usize) -> Vec<usize> {
@@ -146,6 +181,10 @@ fn apply(op: &[String]) -> String {
     let t: Vec<&str> = op.iter().map(|s| s.as_str()).collect();
     match t.as_slice() {
         ["shape"] => shape(),
+        ["wrap", d, n] => match (d.parse::<u64>(), n.parse::<usize>()) {
+            (Ok(d), Ok(n)) if d >= 1 && d <= 1 << 20 && n <= 64 => wrap(d, n),
+            _ => "bad-op".into(),
+        },
         ["stress", t, k, mode] => match (t.parse::<usize>(), k.parse::<usize>()) {
             (Ok(t), Ok(k)) if t >= 1 && t <= 64 => stress(t, k, mode),
             _ => "bad-op".into(),
@@ -180,6 +219,10 @@ pub fn run(args: &Args, out: &mut Out) {
     let mut idx = 0u64;
     run_case(out, idx, "shape", &[toks("shape".into())]);
     idx += 1;
+    for (d, n) in [(1u64, 3usize), (2, 5), (5, 5), (7, 16)] {
+        run_case(out, idx, "wrap", &[toks(format!("wrap {d} {n}"))]);
+        idx += 1;
+    }
     // fixed ladder: the design's 16 threads x 50 000 (quick) / 2 000 000 (thorough) through DialOpts
     let big = if args.thorough { 2_000_000 } else { 50_000 };
     let ladder: Vec<(usize, usize, &str)> = vec![
@@ -205,6 +248,9 @@ pub fn run(args: &Args, out: &mut Out) {
             _ => rng.range(50, 600) as usize,
         };
         let mut ops = vec![toks(format!("stress {t} {k} {mode}"))];
+        if rng.chance(1, 4) {
+            ops.push(toks(format!("wrap {} {}", rng.range(1, 40), rng.range(0, 48))));
+        }
         if rng.chance(1, 3) {
             ops.push(toks(format!("stress {} {} dial", rng.range(2, 8), rng.range(100, 5000))));
         }
